@@ -117,4 +117,7 @@ pub mod models;
 pub mod solver;
 pub mod utils;
 
+#[cfg(reinterpretcat_vrp_verif)]
+pub mod verif;
+
 pub use rosomaxa;
